@@ -143,6 +143,14 @@ def random_jobs(ctx, prop, fns, count):
             job["dtype"] = rng.choice(["int", "int32", "uint8", "float32", "bool"])
         if rng.random() < 0.25:
             job["layout"] = rng.choice(["F", "view"])
+        if rng.random() < 0.3:           # weight magnitudes (see rewire_common: exact power-of-two scaling)
+            p2 = rng.choice([8, 8, 40, -560])
+            ok = {8: (None, "int", "int32", "int16", "float32"), 40: (None, "int"), -560: (None,)}[p2]
+            if job.get("dtype") in ok:
+                job["pow2"] = p2
+            elif rng.random() < 0.5:
+                job["dtype"] = rng.choice(ok)
+                job["pow2"] = p2
         if mask:
             B = np.zeros((n, n))
             mval = rng.choice([1, 1, 0.5, 0.25, -1, 3])      # any nonzero value forbids the cell
